@@ -449,6 +449,21 @@ def evaluate(case):
         if arg != requested:
             flags['caller_set_mutated'] = True
 
+    # (0) a batch that carries on after a refused write: a frame array one of whose channels was never loaded is given to the data
+    # writer first (it refuses with ValueError, part way through a row); what is written afterwards must not carry anything of it
+    try:
+        from TotalDepth.common import LogPass as _LP
+        import numpy as _np
+        poison = _LP.FrameArray('P', 'refused')
+        for nm in ('PX', 'PA', 'PB'):
+            poison.append(_LP.FrameChannel(nm, nm, 'm', (1,), _np.dtype('f8')))
+        poison.init_arrays(2)
+        poison.channels[0].array[...] = [[1.0], [2.0]]
+        poison.channels[1].array[...] = [[3.0], [4.0]]
+        poison.channels[2].init_array(0)
+        WriteLAS.write_array_section_data_to_las(poison, 'first', set(), 16, '.3f', io.StringIO())
+    except Exception:  # noqa  (how this one is refused is not judged)
+        pass
     # (1) the wrapper the converters call, one set object passed through (observe_at of the property)
     t1 = None
     arg = set(requested)
